@@ -104,113 +104,87 @@ def special_c11(tier, seed, th, chk):
         return [r]
 
 
+def large_stage(tier, seed, th, chk):
+    """G10: adversarial large inputs (runs of folds, ignored lines, whitespace, near-miss SIMD blocks, many
+    headers, …; 32 KiB/256 KiB quick, 128 KiB/1 MiB thorough) under dev (opt 1 + debug assertions), release and
+    a true opt-level-0 debug build.  One run, cached per tree; its findings are labelled for the property
+    they concern: worker death / watchdog → C01 and C20; Complete(n) with n ≠ the known head length, or not
+    Complete where the input is a complete head → C03; cursor travel / block peeks beyond the proved bounds, or
+    time growing faster than linearly (re-measured three times) → C20."""
+    import subprocess, time, os, json
+    cdir = os.path.join(chk.BUILD, "cache", th, "large-%s" % tier)
+    res_path = os.path.join(cdir, "result.json")
+    with chk.Lock("large"):
+        if os.path.exists(res_path):
+            out = json.load(open(res_path))
+            for r in out:
+                r["cached"] = True
+            return out
+        os.makedirs(cdir, exist_ok=True)
+        small, factor = (32 * 1024, 8) if tier == "quick" else (128 * 1024, 8)
+        out = []
+        for variant in ("dev", "release", "dev-o0"):
+            t0 = time.time()
+            binp, err = chk.build_harness(variant)
+            if binp is None:
+                out.append({"family": "large(G10)", "variant": variant, "build_failed": True, "log": err, "fails": [], "stats": {}, "samples": {}, "n": 0, "wall": 0})
+                continue
+            hung = []
+
+            def measure(reps, only=None):
+                try:
+                    pr = subprocess.run([binp, "cost", str(small), str(factor), str(reps)] + ([only] if only else []), capture_output=True, text=True, env=chk.ENV, timeout=1800)
+                    o, rc = pr.stdout, pr.returncode
+                except subprocess.TimeoutExpired as ex:
+                    o, rc = ((ex.stdout or b"").decode(errors="replace") if isinstance(ex.stdout, bytes) else (ex.stdout or "")), -14
+                if rc != 0:
+                    begun = [l for l in o.splitlines() if l.startswith("begin ")]
+                    hung.append((begun[-1] if begun else "begin ?") + " rc=%s" % rc)
+                rows = {}
+                for l in o.splitlines():
+                    t = l.split()
+                    if len(t) < 6 or t[0] != "cost":
+                        continue
+                    kv = dict(x.split("=", 1) for x in t[3:] if "=" in x)
+                    rows.setdefault(t[1], []).append({k: (int(v) if v.isdigit() else v) for k, v in kv.items()})
+                return rows
+            rows = measure(3 if variant == "dev-o0" else 7)
+            fails, samples, n = [], {}, 0
+            for h in hung:
+                fam = h.split()[1] if len(h.split()) > 1 else "?"
+                for p in ("C01", "C20"):
+                    fails.append("FAIL %s hard | parsing an adversarial large input crashed or did not return within the 60 s watchdog | cost %s (hxharness cost, %s build) | %s" % (p, fam, variant, h))
+            for fam, rs in rows.items():
+                for r in rs:
+                    n += 1
+                    size = r["size"]
+                    st = str(r.get("status", ""))
+                    if fam != "partial-folds" and not (st.startswith("C:%d:" % size)):
+                        fails.append("FAIL C03 hard | a complete head of known length is not reported as Complete(that length) | cost %s size=%d (%s build) | status=%s" % (fam, size, variant, st))
+                    if fam == "many-small-headers" and st.startswith("C:") and int(st.split(":")[2]) != (size - 18) // 5:
+                        fails.append("FAIL C17 hard | number of exposed headers differs from the number of header lines | cost %s size=%d (%s build) | status=%s" % (fam, size, variant, st))
+                    if r["adv"] > size or r["pk"] + r["l16"] + r["l32"] > size + 8:
+                        fails.append("FAIL C20 hard | cursor travel / number of block loads exceed the buffer length on an adversarial input | cost %s size=%d (%s build) | %s" % (fam, size, variant, r))
+                if len(rs) == 2 and rs[0]["ns"] > 0 and variant != "dev-o0":
+                    ratio = rs[1]["ns"] / rs[0]["ns"]
+                    srat = rs[1]["size"] / rs[0]["size"]
+                    samples["cost." + fam] = "size %d -> %d: %.1f us -> %.1f us (x%.1f for x%.1f bytes)" % (rs[0]["size"], rs[1]["size"], rs[0]["ns"] / 1e3, rs[1]["ns"] / 1e3, ratio, srat)
+                    if ratio > 3 * srat:
+                        worst = ratio
+                        for _ in range(3):
+                            rr = measure(9, fam).get(fam, [])
+                            if len(rr) == 2 and rr[0]["ns"] > 0:
+                                worst = min(worst, rr[1]["ns"] / rr[0]["ns"])
+                        if worst > 3 * srat:
+                            fails.append("FAIL C20 hard | parsing time grows faster than linearly on an adversarial family (x%.1f time for x%.1f bytes, persisted over 4 measurements) | cost %s (hxharness cost %d %d, %s build) | %s" % (worst, srat, fam, small, factor, variant, rs))
+            out.append({"family": "large(G10)", "variant": variant, "n": n, "fails": fails, "nfails": len(fails),
+                        "stats": {"cases.large": n, "nontrivial.large": n}, "samples": samples, "wall": time.time() - t0, "cached": False})
+        json.dump(out, open(res_path, "w"))
+        return out
+
+
 def special_c20(tier, seed, th, chk):
-    """G10: adversarial large inputs (runs of folds, ignored lines, whitespace, near-miss SIMD blocks, …):
-    cursor travel and block peeks against the proved bounds, and growth of the best-of-N time between two
-    sizes (linear work => time ratio ~ size ratio).  Timing is noisy, so a suspicious ratio is re-measured
-    three times and only reported if it persists."""
-    import subprocess, time
-    small, factor = (32 * 1024, 8) if tier == "quick" else (128 * 1024, 8)
-    out = []
-    for variant in ("dev", "release"):
-        t0 = time.time()
-        binp, err = chk.build_harness(variant)
-        if binp is None:
-            out.append({"family": "cost", "variant": variant, "build_failed": True, "log": err, "fails": [], "stats": {}, "samples": {}, "n": 0, "wall": 0})
-            continue
-        hung = []
-
-        def measure(reps, only=None):
-            try:
-                pr = subprocess.run([binp, "cost", str(small), str(factor), str(reps)] + ([only] if only else []), capture_output=True, text=True, env=chk.ENV, timeout=1800)
-                o, rc = pr.stdout, pr.returncode
-            except subprocess.TimeoutExpired as ex:
-                o, rc = (ex.stdout or b"").decode(errors="replace") if isinstance(ex.stdout, bytes) else (ex.stdout or ""), -14
-            if rc != 0:
-                begun = [l for l in o.splitlines() if l.startswith("begin ")]
-                hung.append((begun[-1] if begun else "begin ?") + " rc=%s" % rc)
-            rows = {}
-            for l in o.splitlines():
-                t = l.split()
-                if len(t) < 6 or t[0] != "cost":
-                    continue
-                kv = dict(x.split("=", 1) for x in t[3:] if "=" in x)
-                rows.setdefault(t[1], []).append({k: (int(v) if v.isdigit() else v) for k, v in kv.items()})
-            return rows
-        rows = measure(7)
-        fails, samples = [], {}
-        n = 0
-        for h in hung:
-            fails.append("FAIL C20 hard | parsing an adversarial input did not return within the 60 s watchdog (or the worker died) | cost %s (hxharness cost) | %s" % (h.split()[1] if len(h.split()) > 1 else "?", h))
-        for fam, rs in rows.items():
-            for r in rs:
-                n += 1
-                size = r["size"]
-                # the NUMBER of block peeks / vector loads is bounded by the length (each scanner call makes
-                # >= 1 byte of progress through its mandatory next!); their total WIDTH is not (a 32-byte
-                # load may be followed by 2 bytes of progress on a short folded line)
-                if r["adv"] > size or r["pk"] + r["l16"] + r["l32"] > size + 8:
-                    fails.append("FAIL C20 hard | cursor travel / block loads exceed the buffer length on an adversarial input | cost %s size=%d (hxharness cost) | %s" % (fam, size, r))
-            if len(rs) == 2 and rs[0]["ns"] > 0:
-                ratio = rs[1]["ns"] / rs[0]["ns"]
-                srat = rs[1]["size"] / rs[0]["size"]
-                samples["cost." + fam] = "size %d -> %d: %.1f us -> %.1f us (x%.1f for x%.1f bytes)" % (rs[0]["size"], rs[1]["size"], rs[0]["ns"] / 1e3, rs[1]["ns"] / 1e3, ratio, srat)
-                if ratio > 3 * srat:
-                    worst = ratio
-                    for _ in range(3):
-                        rr = measure(9, fam).get(fam, [])
-                        if len(rr) == 2 and rr[0]["ns"] > 0:
-                            worst = min(worst, rr[1]["ns"] / rr[0]["ns"])
-                    if worst > 3 * srat:
-                        fails.append("FAIL C20 hard | parsing time grows faster than linearly on an adversarial family (x%.1f time for x%.1f bytes, persisted over 4 measurements) | cost %s (hxharness cost %d %d) | %s" % (worst, srat, fam, small, factor, rs))
-        out.append({"family": "cost(G10)", "variant": variant, "n": n, "fails": fails, "nfails": len(fails),
-                    "stats": {"cases.cost": n, "nontrivial.cost": n}, "samples": samples, "wall": time.time() - t0, "cached": False})
-    return out
-
-
-BORROW_ERRORS = {"E0597", "E0502", "E0499", "E0505", "E0506", "E0716", "E0515", "E0521", "E0712", "E0713", "E0503", "E0495", "E0621", "E0623"}
-
-
-def special_c04(tier, seed, th, chk):
-    """Static half of C04 (NOT a proof; a regression corpus): minimal client programs that let a field outlive /
-    alias-mutate its buffer or array must be rejected by the borrow checker when compiled against the current
-    tree; a few usage patterns must keep compiling."""
-    import subprocess, os, glob, re, time
-    t0 = time.time()
-    binp, err = chk.build_harness("dev")
-    if binp is None:
-        return [{"family": "static-corpus", "variant": "dev", "build_failed": True, "log": err, "fails": [], "stats": {}, "samples": {}, "n": 0, "wall": 0}]
-    deps = os.path.join(os.path.dirname(binp), "deps")
-    rlibs = sorted(glob.glob(os.path.join(deps, "libhttparse-*.rlib")), key=os.path.getmtime)
-    fails, samples, n = [], {}, 0
-    if not rlibs:
-        fails.append("FAIL C04 model | no httparse rlib found to compile the static corpus against | static | " + deps)
-    else:
-        outdir = os.path.join(chk.BUILD, "static_c04")
-        os.makedirs(outdir, exist_ok=True)
-        for kind in ("reject", "accept"):
-            for prog in sorted(glob.glob(os.path.join(chk.VERIF, "static_c04", kind, "*.rs"))):
-                n += 1
-                r = subprocess.run(["rustc", "--edition", "2021", "--crate-type", "bin", "--emit=metadata", "--cfg", "httparse_verif",
-                                    "--extern", "httparse=" + rlibs[-1], "-L", "dependency=" + deps, prog,
-                                    "-o", os.path.join(outdir, os.path.basename(prog) + ".rmeta")],
-                                   capture_output=True, text=True, env=chk.ENV)
-                codes = set(re.findall(r"error\[(E\d+)\]", r.stderr))
-                name = "%s/%s" % (kind, os.path.basename(prog))
-                if kind == "reject":
-                    if r.returncode == 0:
-                        fails.append("FAIL C04 hard | a client program that keeps a field / the headers slice past its buffer or array (or mutates it while live) is ACCEPTED by the compiler | static %s | rustc exit 0" % name)
-                    elif not (codes & BORROW_ERRORS):
-                        fails.append("FAIL C04 model | corpus program is rejected, but not by the borrow checker (API change?) | static %s | %s" % (name, r.stderr[-300:].replace("\n", " ")))
-                    else:
-                        samples.setdefault("static." + kind, "%s -> %s" % (name, sorted(codes)))
-                else:
-                    if r.returncode != 0:
-                        fails.append("FAIL C04 hard | a usage pattern that must keep compiling is rejected | static %s | %s" % (name, r.stderr[-300:].replace("\n", " ")))
-                    else:
-                        samples.setdefault("static." + kind, name + " -> compiles")
-    return [{"family": "static-corpus", "variant": "dev", "n": n, "fails": fails, "nfails": len(fails),
-             "stats": {"cases.static_programs": n, "nontrivial.static": n}, "samples": samples, "wall": time.time() - t0, "cached": False}]
+    return large_stage(tier, seed, th, chk)
 
 
 def special_miri(prop, tier, seed, th, chk):
@@ -278,7 +252,9 @@ def special_miri(prop, tier, seed, th, chk):
 def special(prop, tier, seed, th, chk):
     import subprocess, json, os, time
     if prop in ("C01", "C17"):
-        return special_miri(prop, tier, seed, th, chk)
+        return special_miri(prop, tier, seed, th, chk) + large_stage(tier, seed, th, chk)
+    if prop == "C03":
+        return large_stage(tier, seed, th, chk)
     if prop == "C04":
         return special_c04(tier, seed, th, chk)
     if prop == "C20":
